@@ -3,7 +3,7 @@
 # Applies a patch to a scratch copy of custom_components/pyscript (outside /repo and /verif), runs the
 # command with PYSCRIPT_SRC pointing at it, removes the copy.  Used for self-tests only.
 set -e
-D=$(mktemp -d /tmp/vfmut.XXXXXX)
+mkdir -p /var/tmp/vfm; D=$(mktemp -d /var/tmp/vfm/m.XXXXXX)
 mkdir -p "$D/custom_components"
 cp -r /repo/custom_components/pyscript "$D/custom_components/pyscript"
 touch "$D/custom_components/__init__.py" 2>/dev/null || true
